@@ -42,6 +42,7 @@ structure JobSt where
   closes : Nat := 0                 -- successful tryClose CAS
   cancelled : Bool := false         -- closed from created/queued, i.e. before it started
   dones : Nat := 0                  -- wg.Done / WgCounter.Done performed on its behalf
+  acks : Nat := 0                   -- Acknowledge calls made for it (adapter-backed queues)
   hist : List Nat := [0]            -- ghost: every value the status word has held, newest first
   parsedFinished : Bool := false    -- ghost: created by parseToJob from an envelope that says "Finished"
   deriving Repr, Inhabited
@@ -85,6 +86,7 @@ inductive Ev where
   | stFinished (g j : Nat)
   | ldClose (g j v : Nat)
   | casClose (g j old : Nat) (ok : Bool)
+  | ack (g j : Nat)                                -- job.Close → ack(): queue.Acknowledge(ackId), between tryClose and wg.Done
   | wgDone (g j : Nat)                             -- job.Close: wg.Done()
   | ldCount (g b v : Nat)
   | casCount (g b old : Nat) (ok : Bool)
@@ -202,6 +204,11 @@ def step (s : State) : Ev → Except String State
       .ok { s with jobs := upd s.jobs j { setSt js closed with closes := js.closes + 1, cancelled := old ≤ queued },
                    loc := upd s.loc g { s.loc g with ld := none, owesDone := some j } }
     else .ok { s with loc := upd s.loc g { s.loc g with ld := none } }
+  | .ack g j =>
+    let js := s.jobs j
+    if (s.loc g).owesDone != some j then .error "Acknowledge by a goroutine that did not close the job"
+    else if js.acks != 0 then .error "Acknowledge called twice for one job"
+    else .ok { s with jobs := upd s.jobs j { js with acks := js.acks + 1 } }
   | .wgDone g j =>
     let js := s.jobs j
     if (s.loc g).owesDone != some j then .error "wg.Done without having closed the job"
